@@ -337,6 +337,85 @@ def run_unit(u, repo, tier):
     return {"unit": u["name"], "status": "undecided", "notes": [f"unknown engine {eng}"], "obligations": [], "failures": [], "wall_s": 0}
 
 
+SCRATCH_BASE = "/var/tmp/verif-scratch"
+
+
+def scratch_copy(repo, tag):
+    d = os.path.join(SCRATCH_BASE, f"{tag}-{os.getpid()}")
+    shutil.rmtree(d, ignore_errors=True)
+    os.makedirs(d)
+    sh(["rsync", "-a", "--exclude", "/target", "--exclude", ".git", "--exclude", "/trees", repo.rstrip("/") + "/", d + "/"])
+    return d
+
+
+def thorough_extras(prop, sel, repo, known):
+    """thorough tier: (1) seeded-change self-check, (2) replay of recorded findings on the real code,
+    (3) solver-stability re-run of the Verus units with two other random seeds"""
+    out = {"seeded": [], "finding_replays": [], "stability": [], "problems": []}
+    # ---- (1) seeded changes of this property must turn an obligation red
+    for md in sorted(glob.glob(os.path.join(ROOT, "seeded", "*", "meta.json"))):
+        m = json.load(open(md))
+        if m.get("breaks_property") != prop:
+            continue
+        sd = os.path.dirname(md)
+        d = scratch_copy(repo, "seed")
+        try:
+            rc, o, e, _ = sh(["patch", "-p1", "-s", "-i", os.path.join(sd, "patch.diff")], cwd=d)
+            if rc != 0:
+                out["seeded"].append({"seed": os.path.basename(sd), "result": "patch does not apply to the current tree", "expected": m.get("expected")})
+                continue
+            red = []
+            status = []
+            verus_units = [u for u in sel if u.get("engine", "verus") == "verus"]
+            with cf.ThreadPoolExecutor(max_workers=6) as ex:
+                for r in ex.map(lambda u: run_unit_verus(dict(u, name=u["name"]), d), verus_units):
+                    status.append((r["unit"], r["status"]))
+                    for o2 in r["obligations"]:
+                        if o2["status"] == "failed" and (not o2["props"] or prop in o2["props"]):
+                            if not any(k["obligation"] == o2["label"] and k["property"] == prop for k in known):
+                                red.append(o2["label"])
+            caught = len(red) > 0
+            rec = {"seed": os.path.basename(sd), "summary": m.get("summary", "")[:200], "expected": m.get("expected"), "caught": caught, "red_obligations": sorted(set(red))[:6]}
+            out["seeded"].append(rec)
+            if m.get("expected") == "caught" and not caught:
+                out["problems"].append(f"seeded change {os.path.basename(sd)} is no longer caught (machinery too weak)")
+        finally:
+            shutil.rmtree(d, ignore_errors=True)
+    # ---- (2) recorded findings still manifest on the real code
+    kf = [k for k in known if k["property"] == prop]
+    replays = {"C01": [("notes/design-phase-replays.rs", "f4_own_immediate_merge_has_no_snapshot")],
+               "C16": [("notes/design-phase-replays.rs", "f3_welcome_for_held_group_id_disturbs_active_group")],
+               "C05": [("notes/design-phase-replays.rs", "f5_admin_add_sweeps_foreign_remove_proposal"), ("findings/f5b_replay.rs", "verif_replay_f5b"), ("findings/f5cd_replay.rs", "verif_replay_f5cd")]}
+    if kf and prop in replays:
+        d = scratch_copy(repo, "replay")
+        try:
+            lib = os.path.join(d, "crates/mdk-core/src/lib.rs")
+            with open(lib, "a") as fh:
+                for (f, _t) in replays[prop]:
+                    fh.write("\n" + open(os.path.join(ROOT, f)).read())
+            env = dict(os.environ, CARGO_NET_OFFLINE="true", CARGO_TARGET_DIR=os.path.join(BUILD, "replay-target"))
+            for (f, t) in replays[prop]:
+                rc, o, e, w = sh(["cargo", "test", "--offline", "-p", "mdk-core", "--lib", t, "--", "--nocapture", "--test-threads", "1"], cwd=d, env=env, timeout=3000)
+                passed = "test result: ok" in o and " 0 passed" not in o
+                out["finding_replays"].append({"file": f, "test": t, "defect_still_manifests": passed, "seconds": round(w, 1)})
+                if not passed:
+                    out["problems"].append(f"replay {t} of a recorded finding no longer shows the defect (fixed upstream? update known_findings.txt)")
+        finally:
+            shutil.rmtree(d, ignore_errors=True)
+    # ---- (3) stability: same verdict under two more solver seeds
+    for u in [u for u in sel if u.get("engine", "verus") == "verus"]:
+        verdicts = []
+        for seed in (17, 4242):
+            os.environ["VX_VERUS_EXTRA"] = f"--smt-option smt.random_seed={seed}"
+            try:
+                r = run_unit_verus(u, repo)
+            finally:
+                os.environ.pop("VX_VERUS_EXTRA", None)
+            verdicts.append((seed, r["status"], sorted(o["label"] for o in r["obligations"] if o["status"] == "failed")))
+        out["stability"].append({"unit": u["name"], "runs": [{"seed": a, "status": b, "failed": c} for (a, b, c) in verdicts]})
+    return out
+
+
 def trusted_base_scan(units_run):
     """mechanical scan of the templates (with includes) for assumptions"""
     tb = []
@@ -486,6 +565,20 @@ def main():
         rc = 2
         for r in undecided:
             out_lines.append(f"UNDECIDED property={prop} unit={r['unit']}: " + " || ".join(r["notes"]))
+    extras = None
+    if a.tier == "thorough" and not a.unit:
+        extras = thorough_extras(prop, sel, a.repo, known)
+        for pr in extras["problems"]:
+            out_lines.append(f"UNDECIDED property={prop} thorough: {pr}")
+            if rc == 0:
+                rc = 2
+        base = {r["unit"]: sorted(o["label"] for o in r["obligations"] if o["status"] == "failed") for r in results}
+        for st in extras["stability"]:
+            for run in st["runs"]:
+                base_status = {r["unit"]: r["status"] for r in results}.get(st["unit"])
+                if (run["failed"] != base.get(st["unit"], []) or run["status"] != base_status) and rc == 0:
+                    out_lines.append(f"UNDECIDED property={prop} thorough: unit {st['unit']} is solver-unstable (seed {run['seed']}: {run['failed']})")
+                    rc = 2
     wall = time.time() - t0
 
     # evidence
@@ -507,6 +600,7 @@ def main():
             "not_covered": [u.get("not_covered", "") for u in sel if u.get("not_covered")],
             "samples": [{"label": o["label"], "clause": o["clause"], "backend": o["backend"], "status": o["status"]} for o in per_obligation[:3]],
             "exhaustive": False,
+            "thorough": extras,
         },
         "assumptions": sorted(set(x for u in sel for x in u.get("assumptions", []))) + ["usize is 64-bit", "shim contracts listed in trusted_base are assumed, not proved"],
         "wall_s": round(wall, 2),
